@@ -91,7 +91,7 @@ EndClauses(e) ==
               \o (IF e.has_metrics
                   THEN If(e.np = e.w1 - e.w0, "net-profit-vs-finishing-balance" \o rtag)
                        \o If(e.fb = e.w1, "finishing-balance-vs-wallet") \o If(e.total = Len(e.trades), "metrics-total")
-                  ELSE If(Len(e.trades) = 0, "no-metrics-though-trades"))
+                  ELSE If(Len(e.trades) = 0 \/ ~e.expect_metrics, "no-metrics-though-trades"))
          ELSE <<>>)
 
 Step ==
